@@ -72,6 +72,10 @@ def run(tier, seed, replay):
             look = jqgen.lookalike_programs()
             for src in (r.sample(look, 300) if quick else look):
                 cases.append({"id": len(cases), "src": src, "inputs": r.sample(uni, 2), "masks": [ALL_OFF, 0] + [1 << b for b in range(NOPT)]})
+            cf_ = jqgen.constfold_programs()
+            mixed = [jqgen.V(x) for x in ([1], "s", {"a": 1}, [{"a": 1}, [2], 3], None, {"a": {"b": 2}}, {"a": [1, 2, 3]}, [[1, [2]], {"a": None}], 7, {"a": None}, [None])]
+            for src in (r.sample(cf_, 700) if quick else cf_):
+                cases.append({"id": len(cases), "src": src, "inputs": r.sample(mixed, 3 if quick else 6), "masks": [ALL_OFF, 0] + [1 << b for b in range(NOPT)]})
             bp = jqgen.bindpath_programs()
             arrs = [jqgen.V(x) for x in ([1, 2, {"a": "b", "b": 3}], {"a": [1, 2], "b": {"a": 1}}, [[1, 2], [3]], {"a": {"b": 1}}, [0, 1], None)]
             for src in (r.sample(bp, 250) if quick else bp):
